@@ -2,21 +2,35 @@
 (* Model constants and case families for Schema.tla (C12). *)
 EXTENDS Schema
 
-Types4 == ("ks" :> "str") @@ ("kb" :> "bool") @@ ("ki" :> "int") @@ ("ko" :> "obj")
+Strs == {"str", "strT", "str1", "strOff"}
+Types4 == ("ks" :> Strs) @@ ("kb" :> {"bool"}) @@ ("ki" :> {"int"}) @@ ("ko" :> {"obj", "objM", "objNM"})
+\* RX / RY: enum on ks, a nested object schema on ko (n integer, m string, nothing else; RX: at most one of them,
+\* RY: both required), a list of strings ka
+TypesX == ("ks" :> {"str", "strT", "str1"}) @@ ("kb" :> {"bool"}) @@ ("ki" :> {"int"}) @@ ("ko" :> {"obj", "objM"}) @@
+          ("ka" :> {"arr"})
+TypesY == [TypesX EXCEPT !["ko"] = {"objNM"}]
 
-\* custom schemas the harness writes next to the custom template (or serves over http)
+\* custom schemas the harness writes next to the custom template (or serves over http); the JSON text of each is in
+\* checks/c12.py, which also re-derives every accept set below with its own little validator (exit 2 on disagreement)
+Sh(r, o, t) == [req |-> r, open |-> o, types |-> t, none |-> FALSE]
 MCShapes ==
-  ("RC" :> [req |-> {"ks"}, open |-> FALSE, types |-> Types4]) @@     \* required key, additionalProperties false
-  ("RO" :> [req |-> {"ks"}, open |-> TRUE,  types |-> Types4]) @@     \* required key, open
-  ("CL" :> [req |-> {},     open |-> FALSE, types |-> Types4]) @@     \* nothing required, closed
-  ("OP" :> [req |-> {},     open |-> TRUE,  types |-> Types4])        \* nothing required, open, typed
+  ("RC" :> Sh({"ks"}, FALSE, Types4)) @@     \* required key, additionalProperties false
+  ("RO" :> Sh({"ks"}, TRUE,  Types4)) @@     \* required key, open
+  ("CL" :> Sh({},     FALSE, Types4)) @@     \* nothing required, closed
+  ("OP" :> Sh({},     TRUE,  Types4)) @@     \* nothing required, open, typed
+  ("RX" :> Sh({"ks"}, FALSE, TypesX)) @@     \* enum, nested object (violated by the MERGE of two conforming maps), array
+  ("RY" :> Sh({"ks"}, FALSE, TypesY)) @@     \* the same, nested object satisfied only by the merge of two maps
+  ("REF" :> Sh({"ks"}, FALSE, Types4)) @@    \* RC spelled with $ref / definitions
+  ("RDR" :> Sh({"ks"}, FALSE, Types4)) @@    \* RC behind an HTTP redirect (plain RC for file:// templates)
+  ("T" :> Sh({}, TRUE, << >>)) @@            \* the schema `true`
+  ("F" :> [req |-> {}, open |-> TRUE, types |-> << >>, none |-> TRUE])    \* the schema `false`
 
 \* the two built-in schemas in the abstract key alphabet: ks = mock-build-tags (string), kb = unroll-variadic /
 \* with-resets (boolean); every other key of the alphabet is unknown to them; additionalProperties false,
 \* nothing required.  The harness compares this with internal/mock_*.templ.schema.json of the tree under test.
 MCBuiltin ==
-  ("testify" :> [req |-> {}, open |-> FALSE, types |-> ("ks" :> "str") @@ ("kb" :> "bool")]) @@
-  ("matryer" :> [req |-> {}, open |-> FALSE, types |-> ("ks" :> "str") @@ ("kb" :> "bool")])
+  ("testify" :> Sh({}, FALSE, ("ks" :> Strs) @@ ("kb" :> {"bool"}))) @@
+  ("matryer" :> Sh({}, FALSE, ("ks" :> Strs) @@ ("kb" :> {"bool"})))
 
 -----------------------------------------------------------------------------
 (* placements: <<level, key, kind of value>> *)
@@ -56,7 +70,7 @@ Reqs       == {"unset", "true", "false"}
 Unset == [l \in Levels |-> "unset"]
 Only(l, v) == [Unset EXCEPT ![l] = v]
 
-Loc(d, a1, a2) == [default |-> d, alt1 |-> a1, alt2 |-> a2]
+Loc(d, a1, a2) == [default |-> d, alt1 |-> a1, alt2 |-> a2, pA1 |-> "absent", pA2 |-> "absent"]
 
 Case(fam, tmpl, loc, tsch, req, X, pre, extra) ==
   [id |-> fam \o "/" \o tmpl \o "/" \o extra \o "/" \o IdOf(X), fam |-> fam, tmpl |-> tmpl, loc |-> loc,
@@ -135,6 +149,34 @@ FamL(tmpls) ==
                  EXCEPT !.data = DataOf({<<lc, pr[1], pr[2]>>, <<lv, pr[1], pr[3]>>}
                                         \cup (IF l3 = "-" THEN {} ELSE {<<l3, pr[1], pr[2]>>}))])
 
+\* X: schema features beyond type -- enum, nested object (values that are merged across levels: the violation, or the
+\*    conformity, may exist in the MERGED map only), arrays -- under the rich schema RX
+KoKinds == {"obj", "objM"}
+FamX(tmpls) ==
+  \E t \in tmpls :
+    \/ \E ds \in {"RX", "RY"}, l1 \in Levels, l2 \in Levels, k1 \in KoKinds, k2 \in KoKinds \cup {"-"} :
+          /\ l1 # l2
+          /\ InitWith([Case("X", t, Loc(ds, "absent", "absent"), Unset, Unset, {}, {},
+                            ds \o "-ko." \o LevCode(l1) \o k1 \o "." \o LevCode(l2) \o k2)
+                       EXCEPT !.data = DataOf({KsRoot, <<l1, "ko", k1>>} \cup (IF k2 = "-" THEN {} ELSE {<<l2, "ko", k2>>}))])
+    \/ \E lv \in Levels, kv \in {<<"ka", "arr">>, <<"ka", "arrBad">>, <<"ks", "strOff">>, <<"ko", "objNM">>} :
+          InitWith([Case("X", t, Loc("RX", "absent", "absent"), Unset, Unset, {}, {}, kv[1] \o "." \o kv[2] \o "." \o LevCode(lv))
+                    EXCEPT !.data = DataOf(IF kv[1] = "ks" /\ lv = "root" THEN {<<lv, kv[1], kv[2]>>} ELSE {KsRoot, <<lv, kv[1], kv[2]>>})])
+
+\* S: what can lie at the schema location besides an ordinary schema: nothing at all (empty file), `true`, `false`,
+\*    a schema spelled with $ref, one behind a redirect
+FamS(tmpls) ==
+  \E t \in tmpls, ds \in {"empty", "T", "F", "REF", "RDR"}, rr \in {"unset", "false"},
+     X \in {{KsRoot}, {}, {KsRoot, <<"e2", "zz", "str">>}, {<<"iA1", "ks", "bool">>}} :
+    InitWith(Case("S", t, Loc(ds, "absent", "absent"), Unset, Only("root", rr), X, {}, ds \o "." \o ReqCode(rr)))
+
+\* P: a template-schema that is itself templated per interface ({{.InterfaceName}}): each output file has its own
+\*    schema location, resolved for the interface whose mocks it holds
+FamP(tmpls) ==
+  \E t \in tmpls, s1 \in {"RC", "CL", "absent"}, s2 \in {"RC", "OP", "absent"}, lv \in {"root", "pkg"}, X \in DataC :
+    InitWith([Case("P", t, Loc("absent", "absent", "absent"), Only(lv, "perif"), Unset, X, {}, s1 \o s2 \o "." \o LevCode(lv))
+              EXCEPT !.loc = [Loc("absent", "absent", "absent") EXCEPT !.pA1 = s1, !.pA2 = s2]])
+
 \* N: a null on its own -- for a typed key, a required key, an unknown key -- at every level, under a closed, an open
 \*    and a required-key schema (an unknown key with a null value is fine under an open schema only)
 FamN(tmpls) ==
@@ -159,6 +201,9 @@ InitQuick ==
   \/ FamD({"file"}, DataB)
   \/ FamL({"testify", "matryer", "file"})
   \/ FamN({"testify", "matryer", "file"})
+  \/ FamX({"file"})
+  \/ FamS({"file", "http"})
+  \/ FamP({"file"})
   \/ FamR({"testify"}, Reqs, Reqs, Reqs, Reqs)
   \/ FamR({"matryer"}, Reqs, {"unset"}, {"unset", "false"}, {"unset", "false"})
   \/ FamE({"testify", "file"})
@@ -170,6 +215,9 @@ InitThorough ==
   \/ FamD({"file", "http"}, DataB)
   \/ FamL({"testify", "matryer", "file", "http"})
   \/ FamN({"testify", "matryer", "file", "http"})
+  \/ FamX({"file", "http"})
+  \/ FamS({"file", "http"})
+  \/ FamP({"file", "http"})
   \/ FamR({"testify", "matryer"}, Reqs, Reqs, Reqs, Reqs)
   \/ FamE({"testify", "matryer", "file", "http"})
 
